@@ -4,6 +4,7 @@ package main
 
 import (
 	"go/ast"
+	"go/token"
 	"go/types"
 	"math/big"
 	"strings"
@@ -159,6 +160,33 @@ func (x *Exec) libCall(st *State, q string, recv *Value, args []*Value, sig *typ
 		x.mutexOp(st, recv, strings.HasSuffix(q, "Lock") && !strings.HasSuffix(q, "Unlock"), at)
 		return nil, true
 	case strings.HasPrefix(q, "sync/atomic."):
+		// atomics on a struct field (&p.f): sequentially consistent read/write of
+		// that field in this thread's view
+		if len(at.Args) > 0 {
+			if ue, ok := unparen(at.Args[0]).(*ast.UnaryExpr); ok && ue.Op == token.AND {
+				if sel, ok := unparen(ue.X).(*ast.SelectorExpr); ok && x.eng.info.Selections[sel] != nil {
+					name := q[len("sync/atomic."):]
+					switch {
+					case strings.HasPrefix(name, "Load"):
+						return []*Value{x.eval(st, sel)}, true
+					case strings.HasPrefix(name, "Store"):
+						x.assignTo(st, sel, args[1])
+						return nil, true
+					case strings.HasPrefix(name, "CompareAndSwap"):
+						cur := x.eval(st, sel)
+						eq := x.compareEq(st, cur, args[1], at)
+						nv := x.iteV(eq, x.coerce(st, args[2], cur.T), cur)
+						x.assignTo(st, sel, nv)
+						return []*Value{scalarV(types.Typ[types.Bool], eq)}, true
+					case strings.HasPrefix(name, "Add"):
+						cur := x.eval(st, sel)
+						nv := x.binary(st, token.ADD, cur, args[1], cur.T, at)
+						x.assignTo(st, sel, nv)
+						return []*Value{nv}, true
+					}
+				}
+			}
+		}
 		x.note("atomic-op:" + q)
 		return x.freshResults(st, sig, "atomic"), true
 	case q == "bytes.Equal":
